@@ -209,6 +209,9 @@ def countif(rng, criteria):
     #   COUNTIF-function-e0de10c6-f885-4e71-abb4-1f464816df34
     if not list_like(rng):
         rng = ((rng, ), )
+    if criteria is None:
+        # a criterion read from an empty cell is the number 0
+        criteria = 0
     valid = find_corresponding_index(rng, criteria)
     return len(valid)
 
